@@ -810,11 +810,11 @@ func (u *Unit) loopSpec(n ast.Node) (*LoopSpec, int) {
 	return ls, ord
 }
 
+// specEnvAt is the environment of clauses evaluated inside a body (invariants, assertions,
+// ghost statements): parameters are ordinary variables there and denote their current
+// values; old(p) gives the entry value.
 func (u *Unit) specEnvAt(st *State) map[string]Value {
 	env := map[string]Value{}
-	for k, v := range u.entryNames {
-		env[k] = v
-	}
 	if n := len(u.rangeStack); n > 0 {
 		env["$i"] = intV(u.rangeStack[n-1])
 	}
